@@ -15,9 +15,10 @@
 //	            with the same completion time), then one of them is slashed for a double sign while
 //	            unstaking (SetValidator queues it again): whatever is done with the repeated entry
 //	            must not depend on map order
-//	unjail      a jailed node whose JailedUntil lies between the block time and the local clock of
-//	            the early runs; late runs start after it has passed (ValidateUnjailMessage reads
-//	            time.Now())
+//	unjail      the wall-clock witness: block timestamps straddle an instant T = start + 15 s; early runs
+//	            execute while the local clock is before T, late runs after it.  Carries an unjail
+//	            transaction of a node jailed until T and double-sign evidence stamped T: any consensus
+//	            decision that consults the local clock (time.Now / Since / Until …) splits the runs
 //
 // A second stream (`split` / `norm` lines) calls the real keeper.SplitNodeRewards and
 // types.NormalizeRewardDelegators on generated inputs and prints the normalised slice / the callback
@@ -179,6 +180,15 @@ func genHistory(c cfg) *chainx.History {
 				s := w.Servs[0]
 				b.Txs = append(b.Txs, chain.SignTx(chainID, s, chain.MsgNodeUnjail(s.Addr, s.Addr), chain.DefaultFee, next(), ""))
 				ks = append(ks, "unjail")
+			}
+			b.Evidence = nil
+			if bi+1 == 4 {
+				// double-sign evidence stamped `until`: ahead of the local clock of the early runs, behind that of
+				// the late runs, one second old by block time (well inside MaxEvidenceAge)
+				v := w.Vals[1]
+				b.Evidence = append(b.Evidence, abci.Evidence{Type: "duplicate/vote", Validator: abci.Validator{Address: v.Addr, Power: 15000},
+					Height: 3, Time: until, TotalVotingPower: 45000})
+				ks = append(ks, "evidence@until")
 			}
 			t = b.Time
 			h.AddBlock(b, ks)
